@@ -402,6 +402,15 @@ func Worker(t *testing.T, hs map[string]*Harness, pick func(prop string) *Harnes
 		seed := RunSeed(base, run)
 		r := rand.New(rand.NewPCG(seed, 0xca5e))
 		cs := h.Gen(r, prop, tier)
+		if ov := os.Getenv("VERIF_CFG"); ov != "" { // debugging aid: k=v,k=v overrides of the generated configuration
+			for _, kv := range strings.Split(ov, ",") {
+				if k, v, ok := strings.Cut(kv, "="); ok {
+					if n, err := strconv.ParseInt(v, 10, 64); err == nil {
+						cs.Cfg[k] = n
+					}
+				}
+			}
+		}
 		if mode == "gen" {
 			b, _ := json.Marshal(cs)
 			fmt.Println(string(b))
